@@ -177,6 +177,9 @@ REWRITES = {
     "njv_call": (r"\breader\.next_json_value\(\)", r"next_json_value_of(reader)", "reader.next_json_value() is the trait method JsonParser::next_json_value of Reader<R> (contract: unit LEX); called through a free function because the verifier rejects a second trait with the reader's contract in this unit"),
     "starts_with_char": (r"\b(\w+)\.starts_with\('([ -~])'\)", r"vs2::starts_with_char(&\1, '\2')", "s.starts_with('c') for an ASCII c: the first byte of the text is c"),
     "skip_first": (r"\b(\w+)\[1\.\.\]\.to_string\(\)", r"vs2::skip_first_byte(&\1)", "s[1..].to_string() behind a one-byte first character: the text without its first byte (precondition: the first byte is ASCII, i.e. 1 is a character boundary)"),
+    "assert_exists": (r"assert!\(\s*(\w+)\.exists\(\)\s*,\s*\"[^\"]*\"\s*\);", r"vfs::require_exists(\1);", "assert!(file.exists(), msg): a path that does not exist ends the run with a panic message; otherwise nothing happens"),
+    "path_is_dir": (r"\b(\w+)\.is_dir\(\)", r"vfs::is_dir(\1)", "Path::is_dir: some boolean (nothing is known about it)"),
+    "fs_read_dir": (r"\bread_dir\((\w+)\)", r"vfs::read_dir(\1)", "std::fs::read_dir: an iterator over the entries of the directory (each may fail to be read), own iterator type with vstd's iterator laws"),
     "pub_crate": (r"\bpub\(crate\)\s+", r"pub ", "visibility is irrelevant in a single file"),
     "deref_clone": (
         r"(\w+)\.deref\(\)\.clone\(\)", r"vrc::deref_clone(&\1)", "Rc<T>::deref().clone() clones the pointee"),
@@ -414,6 +417,15 @@ def parse_template(path):
             flush()
             inc = os.path.join(VERIF, s[len("//@@ include "):].strip())
             parts.extend(parse_template(inc))
+            i += 1
+        elif s.startswith("//@@ impl-methods "):
+            # //@@ impl-methods <id prefix> = <file> :: <impl header> :: m1 m2 ...   the impl block defines exactly these methods.
+            # A method that appears (e.g. an override of a verified default method of the trait) or disappears changes which
+            # code runs behind the contracts of this unit: the unit is then not the program (undecided; probes are replayed).
+            flush()
+            m = re.match(r"//@@ impl-methods\s+([\w.\-]+)\s*=\s*(.*)$", s)
+            file, *p = [x.strip() for x in m.group(2).split(" :: ")]
+            parts.append(("implcheck", (m.group(1), file, p[:-1], p[-1].split()), path))
             i += 1
         elif s.startswith("//@@ file-consts "):
             flush()
@@ -1162,6 +1174,26 @@ def generate(template, out_path, canary=False, lenient=False):
                         text = srcc[tk[it.head_start].start:tk[it.end - 1].end]
                         if re.match(r"^(pub(\([a-z]+\))?\s+)?const\s+\w+\s*:\s*(u8|u16|u32|u64|usize|i8|i16|i32|i64|isize|bool|char|f64|&str|&'static str)\s*=\s*[^;{}]+;$", _norm(text)):
                             gen.append(GenLine(re.sub(r"^pub(\([a-z]+\))?\s+", "", text), "src", src_file=payload, src_line=_line_of(srcc, tk[it.head_start].start)))
+        elif kind == "implcheck":
+            prefix, file, ipath, want = payload
+            from rustlex import items_in
+            srcc = _read(os.path.join(REPO, file))
+            try:
+                tk, it = find_path(srcc, ipath)
+            except LookupError as e:
+                err = ExtractError("lost anchor %s :: %s: %s" % (file, " :: ".join(ipath), e))
+                err.fid = prefix + ".*"
+                raise err
+            have = []
+            for sub in items_in(tk, it.body_open + 1, it.body_close):
+                ht = sub.header_tokens()
+                if "fn" in ht:
+                    have.append(ht[ht.index("fn") + 1])
+            if sorted(have) != sorted(want):
+                err = ExtractError("lost anchor %s :: %s: the impl block defines %s, the unit expects %s (a method was added, e.g. an override of a verified default method, or removed)"
+                                   % (file, " :: ".join(ipath), sorted(set(have) - set(want)) or sorted(have), sorted(want)))
+                err.fid = prefix + ".*"
+                raise err
         elif kind == "item":
             lines, info = build_item(*payload)
             gen.extend(lines)
